@@ -346,6 +346,18 @@ class Interp:
         return cur, returned
 
     def run_stmt(self, stmt: ast.stmt, st: St) -> tuple[list[St], list[St]]:  # noqa: C901, PLR0911, PLR0912
+        f0, r0 = self._run_stmt(stmt, st)
+        if isinstance(stmt, (ast.Assign, ast.Expr, ast.AugAssign, ast.AnnAssign, ast.Return)):
+            # an exceptional exit: serialising the caller's value raises for unpicklable objects (locks, generators, ...); the
+            # method is left in the state reached so far, which has to satisfy the invariant like any other exit state
+            params = {p for p in self.fn.param_names() if p not in ("self", self.key)}
+            for c in ast.walk(stmt):
+                if isinstance(c, ast.Call) and dotted(c.func).rsplit(".", 1)[-1] in ("dumps", "dump") and any(isinstance(x, ast.Name) and x.id in params for a in c.args[:1] for x in ast.walk(a)):
+                    r0 = [*r0, replace(st, alias=tuple(sorted({**dict(st.alias), "<raised>": norm(c)[:50]}.items())))]
+                    break
+        return f0, r0
+
+    def _run_stmt(self, stmt: ast.stmt, st: St) -> tuple[list[St], list[St]]:  # noqa: C901, PLR0911, PLR0912
         if isinstance(stmt, ast.Return):
             return [], [st]
         if isinstance(stmt, ast.Raise):
@@ -666,7 +678,9 @@ def rule_invariant(ctx: Ctx) -> None:
                                 bad.append(f"key `{k}` occurs {s.qc(k)}x in self.{queue} at exit (it will be evicted twice)")
                         known = {c: v for c, v in vals.items() if v is not None}
                         if len(set(known.values())) > 1:
-                            bad.append(f"containers disagree about key `{k}` at exit: {known}")
+                            exc = dict(s.alias).get("<raised>")
+                            bad.append(f"containers disagree about key `{k}` at exit: {known}" if not exc else
+                                       f"containers disagree about key `{k}` when `{exc}` raises (an unpicklable value): {known} - the failed put leaves the cache corrupted, every later get/put of that key fails")
                     if s.full and s.delta > 0:
                         bad.append("an entry is added to a full cache without evicting one (len exceeds max_size)")
                     if s.delta > 1:
@@ -851,6 +865,38 @@ def rule_disk_bound(ctx: Ctx) -> None:
             f"eviction count `{txt}` not recognised", key="disk-evict-count")
 
 
+def rule_disk_truth(ctx: Ctx) -> None:
+    """Whether the directory is over its bound is decided by looking at the DIRECTORY: on every path through _evict_if_needed
+    on which a bound is set (`self.max_size is not None`), the files are listed.  A shortcut that answers from in-memory state
+    (the LRU front, a counter) is wrong for a directory that already holds files (reopened cache, a second writer): the bound is
+    exceeded and nothing is evicted."""
+    from ..flow import exit_avoiding
+
+    ev_fn = ctx.prog.func(f"{MOD}.DiskCache._evict_if_needed")
+    cfg = ctx.cfg(ev_fn)
+    LIST = ("glob", "iterdir", "listdir", "scandir", "rglob", "walk")
+
+    def lists_dir(fn_: FuncInfo, depth: int = 2) -> bool:
+        if any(isinstance(c, ast.Call) and isinstance(c.func, (ast.Attribute, ast.Name)) and dotted(c.func).rsplit(".", 1)[-1] in LIST for c in ast.walk(fn_.node)):
+            return True
+        return depth > 0 and any(lists_dir(c, depth - 1) for s_ in ctx.cg.sites.get(fn_.qualname, []) for c in s_.callees if c.qualname != fn_.qualname and c.module.name == MOD)
+
+    listing = set()
+    for n_ in cfg.nodes():
+        for part in header_parts(cfg.stmt[n_]):
+            for c in ast.walk(part):
+                if isinstance(c, ast.Call) and ((isinstance(c.func, ast.Attribute) and c.func.attr in LIST) or any(lists_dir(t) for t in ctx.cg.resolve_callable(ev_fn, c.func))):
+                    listing.add(n_)
+    if not listing:
+        ctx.add("7-disk-bound", ev_fn, ev_fn.node, None, "UNDECIDED: no statement of _evict_if_needed lists the cache directory", key="disk-truth")
+        return
+    w = exit_avoiding(cfg, Defs(ev_fn), listing, {"self.max_size is not None": True, "self.max_size is None": False})
+    rets = [cfg.stmt[x] for x in (w or []) if isinstance(cfg.stmt.get(x), (ast.Return, ast.If))]
+    ctx.add("7-disk-bound", ev_fn, rets[-1] if rets else ev_fn.node, w is None, "with a bound set, every path through _evict_if_needed lists the directory" if w is None else
+            f"with a bound set, _evict_if_needed can return without looking at the directory ({'; '.join(cfg.describe(w, ev_fn.module.relpath))[:200]}): it answers from in-memory state, which knows nothing of files that were "
+            "already there (reopened directory, second writer) - the directory grows past max_size and the oldest file is not evicted", key="disk-truth")
+
+
 def rule_negative_slice(ctx: Ctx) -> None:
     """A surplus computed as a difference is used as a COUNT (range(n): empty when n <= 0), never as a slice bound
     (`files[: n]` with n < 0 selects all but the last |n|): below capacity that would delete entries that nothing displaced."""
@@ -1017,7 +1063,7 @@ def rule_proxy_iteration(ctx: Ctx) -> None:
 
 
 def check(ctx: Ctx) -> None:
-    for rule in (rule_disk_levels, rule_stores, rule_lock, rule_invariant, rule_policy, rule_retire, rule_division, rule_pickle_guard, rule_disk_bound, rule_negative_slice, rule_containers_bound_once, rule_proxy_iteration):
+    for rule in (rule_disk_levels, rule_stores, rule_lock, rule_invariant, rule_policy, rule_retire, rule_division, rule_pickle_guard, rule_disk_bound, rule_disk_truth, rule_negative_slice, rule_containers_bound_once, rule_proxy_iteration):
         ctx.run(rule)
 
 
